@@ -414,15 +414,19 @@ def make_spec(family, seed, scale=1.0):
         sts = []
         for s in range(nsub):
             if compact:
-                r = _sc(rnd, 30, 90, S, 3)
-                c = _sc(rnd, 120, 300, S, 3)
+                # few rows (the clustering of otlLib.optimize is cubic in the row count), wide value records
+                r = _sc(rnd, 50, 100, S, 3)
+                c = _sc(rnd, 150, 300, S, 3)
                 vf1 = rnd.choice([VF_XADV | VF_XPLA | VF_YPLA, VF_XADV | VF_XPLA, VF_XADV | VF_XPLA | VF_YPLA | VF_YADV])
                 vf2 = rnd.choice([0, VF_XPLA, VF_XPLA | VF_XADV | VF_YPLA])
             else:
-                r = _sc(rnd, 150, 420, S, 3)
-                c = _sc(rnd, 120, 320, S, 3)
+                r = _sc(rnd, 200, 420, S, 3)
+                c = _sc(rnd, 180, 320, S, 3)
                 vf1 = rnd.choice([VF_XADV, VF_XADV, VF_XADV | VF_XPLA])
                 vf2 = rnd.choice([0, 0, VF_XPLA])
+            if S >= 1:  # the class records alone exceed 64 kB
+                rec = 2 * (bin(vf1).count("1") + bin(vf2).count("1"))
+                c = max(c, -(-70000 // (r * rec)))
             c1 = _partition(rnd, rnd.sample(glyphs, min(len(glyphs), r * rnd.randint(1, 4))), r)
             c2 = _partition(rnd, rnd.sample(glyphs, min(len(glyphs), c * rnd.randint(1, 4))), c)
             dens = rnd.choice([0.03, 0.1, 0.3, 0.6])
@@ -452,6 +456,8 @@ def make_spec(family, seed, scale=1.0):
         nm = _sc(rnd, 200, 1500, S, 6)
         nb = _sc(rnd, 300, 1200, S, 6)
         ncls = _sc(rnd, 12, 60, max(S, 0.1), 2)
+        if S >= 1:  # BaseArray (offsets + anchors) exceeds 64 kB even with 40% NULL anchors
+            nb = max(nb, -(-14000 // ncls))
         ids = list(range(1, n))
         rnd.shuffle(ids)
         markg = ids[:nm]
@@ -481,7 +487,7 @@ def make_spec(family, seed, scale=1.0):
         spec.update(n=n, table="GPOS", tag="mark", gdef=gdef, lookups=[dict(kind="markbase", subtables=sts)])
     elif family == "ligature":
         n = _sc(rnd, 3000, 9000, S, 60)
-        nsets = _sc(rnd, 600, 4000, S, 4)
+        nsets = _sc(rnd, 1500, 4000, S, 4)
         glyphs = list(range(1, n))
         comp_pool = rnd.sample(glyphs, max(6, min(len(glyphs), _sc(rnd, 40, 400, max(S, 0.2), 6))))
         firsts = rnd.sample(glyphs, min(len(glyphs), nsets))
@@ -501,14 +507,30 @@ def make_spec(family, seed, scale=1.0):
         spec.update(n=n, table="GSUB", tag="liga", lookups=[dict(kind="ligature", subtables=sts)])
     elif family in ("multiple", "alternate"):
         n = _sc(rnd, 20000, 60000, S, 40)
-        cnt = _sc(rnd, 9000, 30000, S, 5)
+        cnt = _sc(rnd, 9000, 20000, S, 5)
         glyphs = list(range(1, n))
         src = rnd.sample(glyphs, min(len(glyphs), cnt))
         nsub = rnd.choice([1, 1, 2])
         sts = [dict(map={}) for _ in range(nsub)]
+        # dups: some glyphs get identical output lists (identical Sequence/AlternateSet tables are shared by the
+        # writer). Without dups every list is unique.
+        dups = rnd.random() < 0.5
+        spec["dups"] = dups
+        seen = set()
+        common = [[rnd.choice(glyphs) for _ in range(rnd.randint(1, 3))] for _ in range(5)]
         for g in src:
             ln = rnd.randint(2, 5) if family == "multiple" else rnd.randint(1, 5)
-            rnd.choice(sts)["map"][g] = [rnd.choice(glyphs) for _ in range(ln)]
+            if dups and rnd.random() < 0.02:
+                out = list(rnd.choice(common))
+                if family == "multiple" and len(out) < 2:
+                    out = out + out
+            else:
+                while True:
+                    out = [rnd.choice(glyphs) for _ in range(ln)]
+                    if tuple(out) not in seen:
+                        break
+                seen.add(tuple(out))
+            rnd.choice(sts)["map"][g] = out
         sts = [st for st in sts if st["map"]]
         spec.update(n=n, table="GSUB", tag="ccmp" if family == "multiple" else "aalt", lookups=[dict(kind=family, subtables=sts)])
         if family == "alternate":
@@ -546,13 +568,13 @@ def make_spec(family, seed, scale=1.0):
         spec.update(n=n, table="GSUB", tag="ss02", lookups=lookups)
     elif family == "manylookups_gpos":
         n = _sc(rnd, 1500, 4000, S, 60)
-        nl = _sc(rnd, 150, 400, S, 3)
+        nl = _sc(rnd, 250, 400, S, 3)
         glyphs = list(range(1, n))
         lookups = []
         for l in range(nl):
             pairs = {}
             fs = rnd.sample(glyphs, min(len(glyphs), rnd.randint(3, 12)))
-            for _ in range(_sc(rnd, 60, 160, S, 3)):
+            for _ in range(_sc(rnd, 90, 170, S, 3)):
                 pairs[(rnd.choice(fs), rnd.choice(glyphs))] = ((0, 0, rnd.choice([-1, 1]) * rnd.randint(1, 90)), None)
             lookups.append(dict(kind="pair1", subtables=[dict(pairs=pairs, vf1=VF_XADV, vf2=0)]))
         spec.update(n=n, table="GPOS", tag="kern", lookups=lookups)
